@@ -1,6 +1,6 @@
 import importlib
 
-MODULES = ['traversal', 'equality', 'payload']
+MODULES = ['traversal', 'equality', 'payload', 'locks']
 
 
 def load_all():
